@@ -18,11 +18,13 @@ def pkg_cases(draw, max_classes: int = 7, leaf_only_instance_attrs: bool = False
     # externals available to this case (most cases: none or one, so that few classes fall outside the domain)
     ext_pool = draw(st.sampled_from(_EXT_POOLS))
     cyclic = draw(st.integers(0, 6)) == 0
+    # a history on one loader (see c07_hier): none / base package loaded late / a class replaced through set_member
+    hist_kind = draw(st.sampled_from(("", "", "late", "replace")))
     # how classes become subscriptable: not at all / own __class_getitem__ / typing.Generic[T] as a base
-    gen_mode = draw(st.sampled_from(("", "", "cgi", "typing")))
+    gen_mode = draw(st.sampled_from(("", "", "cgi", "typing"))) if hist_kind != "replace" else ""
     # classes defined inside the next class
     nest = [False] * n
-    if draw(st.integers(0, 1)):
+    if hist_kind != "replace" and draw(st.integers(0, 1)):
         nest = [draw(st.integers(0, 2)) == 0 for _ in range(n)]
         nest[-1] = False
     shell = {"bases": [[] for _ in range(n)], "nest": nest}
@@ -34,7 +36,10 @@ def pkg_cases(draw, max_classes: int = 7, leaf_only_instance_attrs: bool = False
     mods = [dense[m] for m in mods]
     # wildcard forms: only when the loader expands them, and never in a package whose imports are cyclic
     # (back-and-forth wildcard imports are a loader topic - C05/C06 -, not a class-hierarchy one)
-    cross_forms = [f for f in H.FORMS_CROSS if f != "w" or (resolve and not cyclic)]
+    # ... nor across two packages that are loaded one after the other (wildcard expansion is the loader's business)
+    if hist_kind == "late" and max(mods) == 0:
+        hist_kind = ""
+    cross_forms = [f for f in H.FORMS_CROSS if f != "w" or (resolve and not cyclic and hist_kind != "late")]
     cgi = [gen_mode == "cgi" and draw(st.integers(0, 2)) == 0 for _ in range(n)]
     bases: list[list] = []
     via: list[list[str]] = []
@@ -93,4 +98,14 @@ def pkg_cases(draw, max_classes: int = 7, leaf_only_instance_attrs: bool = False
         case["sub"] = sub
     if leaf_only_instance_attrs and init != H.init_from_bits(spread, members, bases, leaf_only=False):
         case["ia_steered"] = True
+    if hist_kind == "late":
+        case["history"] = {"type": "late", "split": draw(st.integers(1, max(mods)))}
+    elif hist_kind == "replace":
+        j = draw(st.integers(0, n - 1))
+        # new bases: earlier classes without instance attribute (the replacement must not create the known-finding shape)
+        pool = [b for b in range(j) if init[b] < 1]
+        size = min(len(pool), draw(st.sampled_from((0, 1, 1, 2, 2, 3))))
+        new_bases = draw(st.permutations(pool))[:size] if size else []
+        new_members = [draw(st.sampled_from((0, 0, 1, 2, 3))) for _ in H.NAMES]
+        case["history"] = {"type": "replace", "target": j, "bases": new_bases, "members": new_members}
     return case
